@@ -1,6 +1,6 @@
 """C02 — level gating is coherent: enabled(), delivery and the global max level agree."""
 from l4sa import q
-from l4sa.core import AnchorMissing, ShapeUnrecognised, strip, deep_strip, walk, show, calls_in, cmp_nf
+from l4sa.core import AnchorMissing, ShapeUnrecognised, SwitchInfo, strip, deep_strip, walk, show, calls_in, cmp_nf
 from rules import anchors, common
 
 CLAIMED = True
@@ -103,6 +103,27 @@ def run_cfg(ctx, p, cfg):
         for c in ml.calls(ml.path):
             rr = ml.reach(c.block, avoid=set(nxt))
             r.require(not any(b in rr for b in ml.return_blocks()), "no-early-exit", fn=ml, detail="no path from the recursive call to return that skips the iterator step")
+        # every child is visited: from the Some edge of the iterator step, every path to the next step
+        # or to return passes the recursive call; an early exit is accepted only on `max == Trace`
+        # (Trace is the top of the level order, nothing can raise the maximum further)
+        for nb in nxt:
+            for blk in ml.blocks:
+                if blk["term"]["k"] == "switch" and blk["id"] in ml.reachable_blocks():
+                    si = SwitchInfo(ml, blk["id"])
+                    d = strip(si.discr)
+                    if d[0] == "discr" and strip(d[1])[0] == "call" and len(strip(d[1])) > 3 and strip(d[1])[3] == nb:
+                        st = si.target_of("Some")
+                        cuts = set()
+                        for b2 in ml.blocks:
+                            if b2["term"]["k"] == "switch" and b2["id"] in ml.reachable_blocks():
+                                s2 = SwitchInfo(ml, b2["id"])
+                                nf = cmp_nf(s2.discr, True)
+                                if nf and nf[0] == "Eq" and any(deep_strip(x) in (("const", "enum", "Trace"),) or (deep_strip(x)[0] == "agg" and deep_strip(x)[2] == "Trace") for x in nf[1:]):
+                                    cuts.add((b2["id"], s2.target_of(True)))
+                        recb = [c.block for c in ml.calls(ml.path)]
+                        hit = q.skipping_paths(ml, st, recb, set(nxt) | set(ml.return_blocks()), cut_edges=cuts)
+                        r.require(not hit, "every-child-visited", fn=ml, detail="from the Some edge every path to the next iteration/return passes the recursive call (early exit only on max == Trace)",
+                                  fail_detail="a child can be skipped: from the iterator's Some edge bb%s is reachable without the recursive max_log_level call (e.g. a `continue`/filter on the child's own level drops its whole subtree)" % sorted(hit))
         lm = p.fn("Logger::max_log_level")
         le = lm.local_expr(0)
         recv = deep_strip(le[2][0])
